@@ -120,9 +120,11 @@ def replay_corrmtx(chk, st, rng):
         if cplx:
             x = x + 1j * rng.randint(-9, 10, N)
         exp = np.array([[0 if e[0] == 0 else (np.conj(x[e[0] - 1]) if e[1] else x[e[0] - 1]) for e in row] for row in mat])
-        for kind in ('ndarray', 'list'):
-            arg = x.copy() if kind == 'ndarray' else list(x)
-            case = {'fn': 'corrmtx', 'x': x, 'm': m, 'method': method, 'expect': exp}
+        # entry paths: the default dtype, a python list, and the narrower dtypes of the same (integer-valued) samples
+        kinds = ['ndarray', 'list'] + (['complex64'] if cplx else ['float32', 'int64', 'int16'])
+        for kind in kinds:
+            arg = x.copy() if kind == 'ndarray' else list(x) if kind == 'list' else x.astype(kind)
+            case = {'fn': 'corrmtx', 'x': x, 'm': m, 'method': method, 'entry': kind, 'expect': exp}
             ok, res = call_guard(corrmtx, arg, m, method)
             chk.evaluations += 1
             if not ok:
@@ -130,7 +132,7 @@ def replay_corrmtx(chk, st, rng):
                 continue
             bad = cmp_vec(np.asarray(res), exp, tol=1e-12, name='matrix')
             if bad:
-                chk.violation('C09:corrmtx:%s:%s' % (method, 'complex' if cplx else 'real'),
+                chk.violation('C09:corrmtx:%s:%s:%s' % (method, 'complex' if cplx else 'real', kind if kind not in ('ndarray', 'list') else 'default'),
                               'corrmtx(N=%d, m=%d, %s) differs from its definition: %s' % (N, m, method, bad), dict(case, observed=res))
     chk.replayed += 1
     chk.count('corrmtx', 'replayed')
